@@ -46,6 +46,8 @@ type Solver struct {
 	Unknowns  int
 	Errors    int
 	SolverDur time.Duration
+	SendDur   time.Duration // time blocked writing to the solver
+	ValueDur  time.Duration // time waiting for get-value answers
 	TimeoutMs int
 	Log       io.Writer // optional transcript
 	LastErr   string
@@ -101,7 +103,9 @@ func (s *Solver) send(txt string) {
 	if s.Log != nil {
 		io.WriteString(s.Log, txt)
 	}
+	t0 := time.Now()
 	io.WriteString(s.in, txt)
+	s.SendDur += time.Since(t0)
 }
 
 // flushDefs emits pending declarations and definitions needed for term t and
@@ -292,7 +296,9 @@ func (s *Solver) CheckModel(want []*Term, extra ...*Term) (Result, map[string]ui
 		for i := 0; i < len(want); i += 200 {
 			j := min(i+200, len(want))
 			s.send("(get-value (" + strings.Join(wrefs[i:j], " ") + "))\n")
+			tv := time.Now()
 			txt := s.readSexp()
+			s.ValueDur += time.Since(tv)
 			vals := parseValues(txt)
 			for k := i; k < j; k++ {
 				if k-i < len(vals) {
